@@ -152,7 +152,7 @@ class Gen:
                 return sub(fin=fin, nonempty=True)
             return {'t': 'diff', 'p': sub(fin=fin)}
         if c == 'const':
-            return {'t': 'const', 'p': sub(fin=fin), 'k': r.randint(2, 9)}
+            return {'t': 'const', 'p': sub(fin=fin), 'k': r.randint(2, 9), 'tl': r.choice([0, 0, 1, 2, 3, 4])}
         if c in ('switch', 'switch1'):
             l = [sub(fin=True, nonempty=True) if r.random() < 0.5 else I(r.randint(0, 4)) for _ in range(r.randint(2, 3))]
             w = {'t': 'seq', 'l': self.ints(r.randint(2, 4)), 'r': r.choice([1, 2]), 'o': 0}
@@ -199,6 +199,46 @@ class Gen:
                     'c': I(lo + r.randint(0, 3))}
         # flatten of clump: numbers again
         return {'t': 'flat', 'p': {'t': 'clump', 'p': sub(fin=fin, nonempty=nonempty), 'n': I(r.randint(1, 3))}, 'n': I(1)}
+
+    def lin(self, d, fin=False):
+        """expressions linear in their values (may be put on a dyadic lattice with 'sc'); Pconst with tolerances inside"""
+        r = self.r
+        vals = lambda k=None: [I(r.randint(0, 13)) for _ in range(k or r.randint(1, 4))]
+        if d <= 0:
+            if r.random() < 0.7:
+                return {'t': 'seq', 'l': vals(), 'r': r.choice([1, 2] if fin else [1, 2, INF]), 'o': r.choice([0, 0, 1])}
+            return {'t': 'series', 'k': r.randint(-3, 5), 'st': I(r.choice([1, 2, 3, 5])), 'r': r.choice([3, 6] if fin else [4, INF])}
+        sub = lambda **kw: self.lin(d - 1, **kw)
+        c = r.choice(['const', 'const', 'const', 'seq', 'pn', 'len', 'drop', 'stut', 'diff', 'binop', 'unop', 'clip'])
+        if c == 'const':
+            tl = r.choice([0, 1, 2, 4, 8, 3, 16])
+            return {'t': 'const', 'p': sub(fin=fin), 'k': r.randint(4, 40), 'tl': tl}
+        if c == 'seq':
+            return {'t': 'seq', 'l': [sub(fin=True), I(r.randint(0, 9))], 'r': r.choice([1, 2] if fin else [1, INF]), 'o': r.randint(0, 1)}
+        if c == 'pn':
+            return {'t': 'pn', 'p': {'t': 'seq', 'l': [sub(fin=True), I(r.randint(1, 9))], 'r': 1, 'o': 0}, 'r': r.choice([1, 2] if fin else [2, INF])}
+        if c == 'len':
+            return {'t': 'len', 'p': sub(), 'k': r.randint(1, 7)}
+        if c == 'drop':
+            return {'t': 'drop', 'p': sub(fin=fin), 'k': r.randint(0, 3)}
+        if c == 'stut':
+            return {'t': 'stut', 'p': sub(fin=fin), 'n': I(r.randint(1, 3))}
+        if c == 'diff':
+            return {'t': 'diff', 'p': sub(fin=fin)}
+        if c == 'binop':
+            return {'t': 'binop', 'f': r.choice(['add', 'sub', 'min', 'max']), 'a': sub(fin=fin), 'b': sub() if r.random() < 0.5 else I(r.randint(0, 9))}
+        if c == 'unop':
+            return {'t': 'unop', 'f': r.choice(['neg', 'abs']), 'a': sub(fin=fin)}
+        lo = r.randint(0, 5)
+        return {'t': 'narop', 'f': 'clip', 'a': sub(fin=fin), 'b': I(lo), 'c': I(lo + r.randint(0, 9))}
+
+    def lattice(self):
+        """a linear expression, on the integers or on a dyadic lattice (float branch of the rounding in Pconst)"""
+        r = self.r
+        x = self.lin(r.randint(1, 3))
+        if 'const' not in tags(x):
+            x = {'t': 'const', 'p': x, 'k': r.randint(4, 40), 'tl': r.choice([1, 2, 4, 8, 3])}
+        return x if r.random() < 0.3 else {'t': 'sc', 'q': r.choice([2, 8, 8, 16, 64]), 'p': x}
 
     def anyval(self, d):
         """a pattern that may yield lists / tuples"""
@@ -310,7 +350,7 @@ def judge(ctx, traces, source, bad_tags, may_skip=()):
             raise MachineryError('trace %s (%s) outside the oracle: %s at event %d: %s'
                                  % (t['id'], source, why, at, show(x)))
         nrej += 1
-        ts = tags(x)
+        ts = [g for g in tags(x) if g != 'sc']
         # attribute to a class already seen failing on its own (depth 1), else to the root class
         culprit = next((g for g in ts if g in bad_tags), ts[0])
         if depth(x) <= 1 or ts[0] == 'seed':
@@ -435,7 +475,7 @@ def run(ctx):
     first_random = len(cases)
     for _ in range(nrand):
         c = rnd.random()
-        x = g.seeded() if c < 0.25 else g.anyval(rnd.randint(1, 3)) if c < 0.4 else g.num(rnd.randint(2, 4))
+        x = g.seeded() if c < 0.2 else g.anyval(rnd.randint(1, 3)) if c < 0.35 else g.lattice() if c < 0.5 else g.num(rnd.randint(2, 4))
         cases.append(dict(id=len(cases), x=x, sched=schedule(rnd, n)))
     t1 = time.time()
     traces = run_cases(ctx, cases, n)
